@@ -294,15 +294,15 @@ func init() {
 
 	mathRound := func(f *Term) *Term {
 		half := RealC(big.NewRat(1, 2))
-		pos := ToReal(Floor(Add(f, half)))
-		neg := Neg(ToReal(Floor(Add(Neg(f), half))))
+		pos := ToReal(floorWithShadow(Add(f, half)))
+		neg := Neg(ToReal(floorWithShadow(Add(Neg(f), half))))
 		if f.Lo != nil && f.Lo.Sign() >= 0 {
 			return pos
 		}
 		if f.Hi != nil && f.Hi.Sign() <= 0 {
 			return neg
 		}
-		return Ite(Ge(f, RealC(new(big.Rat))), pos, neg)
+		return Ite(cmpWithShadow("<=", RealC(new(big.Rat)), f), pos, neg)
 	}
 	fl := func(v Value, what string) *Term {
 		t, ok := v.(*Term)
@@ -317,10 +317,10 @@ func init() {
 			return mathRound(fl(args[0], "math.Round"))
 		},
 		"math.Floor": func(in *Interp, st *State, fr *Frame, fn *ssa.Function, args []Value) Value {
-			return ToReal(Floor(fl(args[0], "math.Floor")))
+			return ToReal(floorWithShadow(fl(args[0], "math.Floor")))
 		},
 		"math.Ceil": func(in *Interp, st *State, fr *Frame, fn *ssa.Function, args []Value) Value {
-			return Neg(ToReal(Floor(Neg(fl(args[0], "math.Ceil")))))
+			return Neg(ToReal(floorWithShadow(Neg(fl(args[0], "math.Ceil")))))
 		},
 		"math.Trunc": func(in *Interp, st *State, fr *Frame, fn *ssa.Function, args []Value) Value {
 			return ToReal(truncToInt(fl(args[0], "math.Trunc")))
